@@ -1,6 +1,6 @@
 (** C14 — wire-protocol decoders never panic and consume within bounds (statements; lemmas of the C12 package). *)
 From Acra Require Import Lib.Bytes Lib.Outcome Gen.WireConsts Model.PgWire Model.MysqlWire Model.Bytea
-  Proofs.PgWire Proofs.MysqlWire Proofs.Bytea.
+  Proofs.PgWire Proofs.PgWireBind Proofs.MysqlWire Proofs.Bytea.
 Local Open Scope N_scope.
 
 Theorem C14_pg_read_message_total : forall s, read_msg s <> Panic.
@@ -65,3 +65,59 @@ Print Assumptions C14_bytea_hex_decode_total.
 Theorem C14_bytea_decode_escaped_total : forall d, decode_escaped d <> Panic.
 Proof. exact wire_decode_escaped_total. Qed.
 Print Assumptions C14_bytea_decode_escaped_total.
+
+(** ===== extended-query messages: checked models (every slice / index through Lib/GoSlice.v, integer
+    conversions written out as the code performs them) ===== *)
+
+(** NewBindPacket (readString x2, readUint16Array, readParameterArray, readUint16Array) never panics *)
+Theorem C14_pg_new_bind_packet_total : forall data : bytes, new_bind_packet data <> Panic.
+Proof. exact wire_pg_new_bind_packet_total. Qed.
+Print Assumptions C14_pg_new_bind_packet_total.
+
+(** everything NewBindPacket returns lies inside the message: names, 2 bytes per format code, 4 bytes per
+    parameter, and each parameter value together with the fixed parts *)
+Theorem C14_pg_new_bind_packet_bounded : forall (data : bytes) b, new_bind_packet data = Ok b ->
+  (length (b_portal b) + length (b_stmt b) + 2 <= length data)%nat /\
+  (2 * length (b_pfmts b) + 2 * length (b_rfmts b) + 4 * length (b_params b) <= length data)%nat /\
+  (length (b_portal b) + length (b_stmt b) + 2 * length (b_pfmts b) + 2 * length (b_rfmts b) +
+     4 * length (b_params b) + 8 <= length data)%nat /\
+  forall v : bytes, In (Some v) (b_params b) ->
+    (length (b_portal b) + length (b_stmt b) + 2 * length (b_pfmts b) + 2 * length (b_rfmts b) +
+       length v + 12 <= length data)%nat.
+Proof. exact wire_pg_new_bind_packet_bounded. Qed.
+Print Assumptions C14_pg_new_bind_packet_bounded.
+
+(** the totality above depends on the conversion applied to the declared parameter length: read as a signed
+    int32 and compared with -1 (instead of uint32 widened to int and compared with 0xFFFFFFFF) the same decoder
+    panics on `00 00 00 00 00 01 ff ff ff fe` *)
+Theorem C14_pg_bind_signed_length_refuted : exists data : bytes, new_bind_packet_signed data = Panic.
+Proof. exact bind_signed_length_refuted. Qed.
+Print Assumptions C14_pg_bind_signed_length_refuted.
+
+Theorem C14_pg_new_parse_packet_total : forall data : bytes, new_parse_packet data <> Panic.
+Proof. exact wire_pg_new_parse_packet_total. Qed.
+Print Assumptions C14_pg_new_parse_packet_total.
+
+(** ParsePacket.Name() / QueryString() slice [:len-1]: both fields keep their terminator, so len >= 1 *)
+Theorem C14_pg_parse_accessors_total : forall (data : bytes) pp, new_parse_packet data = Ok pp ->
+  parse_name pp <> Panic /\ parse_query_string pp <> Panic.
+Proof. exact wire_pg_parse_accessors_total. Qed.
+Print Assumptions C14_pg_parse_accessors_total.
+
+Theorem C14_pg_replace_parse_query_total : forall p q, replace_parse_query p q <> Panic.
+Proof. exact wire_pg_replace_parse_query_total. Qed.
+Print Assumptions C14_pg_replace_parse_query_total.
+
+Theorem C14_pg_new_execute_packet_total : forall data : bytes, new_execute_packet data <> Panic.
+Proof. exact wire_pg_new_execute_packet_total. Qed.
+Print Assumptions C14_pg_new_execute_packet_total.
+
+(** GetSimpleQuery after the fix "reject a Query message without payload"; the code as found panicked on
+    `Q 00 00 00 04` *)
+Theorem C14_pg_get_simple_query_total : forall p, get_simple_query p <> Panic.
+Proof. exact wire_pg_get_simple_query_total. Qed.
+Print Assumptions C14_pg_get_simple_query_total.
+
+Theorem C14_pg_get_simple_query_old_refuted : exists p, get_simple_query_old p = Panic.
+Proof. exact get_simple_query_old_refuted. Qed.
+Print Assumptions C14_pg_get_simple_query_old_refuted.
